@@ -206,7 +206,6 @@ def get_piece_length(size: int) -> int:
     return 2**exp
 
 
-@Memo
 def filelist_total(pathstring: str) -> os.PathLike:
     """
     Perform error checking and format conversion to os.PathLike.
